@@ -10,10 +10,11 @@ PROBE = {1: (1, [0]), 2: (2, [-1, 9999, 0]), 3: (3, [-1, 9999]), 4: (4, [-1, 999
          6: (6, [-1, 9999, 0]), 7: (7, [9999, 0])}
 
 
-def grow(cases, chooser, rnd, max_events=400, max_rounds=450):
+def grow(cases, chooser, rnd, max_events=400, max_rounds=450, exe=None):
     """cases: list of Case with ops (evs possibly pre-filled). chooser(case, kind, call_args, trace, rnd) -> event args list
     or None (leave the call unanswered: the case ends 'script does not fit' on both sides)."""
-    exe = model_exe()
+    # exe: grow against this executable instead of the model (failure search: scripts that fit the IMPLEMENTATION's control flow)
+    exe = exe or model_exe()
     active = list(cases)
     for c in active:
         c.meta.setdefault("probe", None)
